@@ -36,7 +36,7 @@ use scylla::frame::response::result::TableSpec;
 use scylla::frame::types::{Consistency, SerialConsistency};
 use scylla::policies::load_balancing::{DefaultPolicy, LoadBalancingPolicy, Plan, RoutingInfo};
 use scylla::routing::{NodeLocationPreference, ShardCount, Sharder, Token};
-use scylla::verif_hooks::cluster::{KeyspaceSpec, NodeSpec, cluster_from_topology_with_tablets, set_sharders};
+use scylla::verif_hooks::cluster::{KeyspaceSpec, NodeSpec, cluster_from_topology_with_tablets, cluster_refresh, set_sharders};
 use scylla::verif_hooks::pool::VerifPool;
 use std::cell::RefCell;
 use std::collections::HashMap;
@@ -313,7 +313,7 @@ fn build(peers: &[PeerSpec], kss: &[Strat], tables: &[TableDecl]) -> ClusterStat
     cs
 }
 
-fn cluster(key: String, peers: &[PeerSpec], kss: &[Strat], tables: &[TableDecl]) -> Rc<ClusterState> {
+fn cluster(key: String, make: impl FnOnce() -> ClusterState) -> Rc<ClusterState> {
     CACHE.with(|c| {
         let mut c = c.borrow_mut();
         if let Some(cs) = c.get(&key) {
@@ -322,7 +322,7 @@ fn cluster(key: String, peers: &[PeerSpec], kss: &[Strat], tables: &[TableDecl])
         if c.len() >= 16 {
             c.clear();
         }
-        let cs = Rc::new(build(peers, kss, tables));
+        let cs = Rc::new(make());
         c.insert(key, cs.clone());
         cs
     })
@@ -424,7 +424,32 @@ fn run_plan(w: &[&str], ctx: &mut Ctx) -> String {
     if peers.iter().any(|p| parse_flags(&p.flags).is_none()) {
         return "bad-case".into();
     }
-    let cs = cluster(format!("{} {} {}", w[1], w[2], w[3]), &peers, &kss, &tables);
+    let cs = cluster(format!("{} {} {}", w[1], w[2], w[3]), || build(&peers, &kss, &tables));
+    // the covering tablet according to the insert history alone (None: the table has no tablet map)
+    let tablet_expect: Option<Vec<(u64, u32)>> = rq.ks.and_then(|k| tables.iter().find(|d| d.ks == k && d.tbl == tbl)).map(|d| {
+        rq.token
+            .and_then(|t| shadow_tablet(&d.tablets, norm_token(t)))
+            .map(|t| t.reps.iter().filter(|(h, _)| peers.iter().any(|p| p.id == *h)).cloned().collect())
+            .unwrap_or_default()
+    });
+    observe(&cs, &peers, &kss, &cfg, &rq, tbl, samples, tablet_expect, ctx)
+}
+
+/// The observation of a `plan` / `hist` case on a built cluster state. `tablet_expect`: `Some(replicas with shards)` of
+/// the tablet that covers the token according to the harness's own history shadow (empty: none covers it), `None` for
+/// a table without tablet map.
+#[allow(clippy::too_many_arguments)]
+fn observe(
+    cs: &ClusterState,
+    peers: &[PeerSpec],
+    kss: &[Strat],
+    cfg: &Config,
+    rq: &Request,
+    tbl: usize,
+    samples: usize,
+    tablet_expect: Option<Vec<(u64, u32)>>,
+    ctx: &mut Ctx,
+) -> String {
 
     let mut b = DefaultPolicy::builder()
         .token_aware(cfg.token_aware)
@@ -471,7 +496,7 @@ fn run_plan(w: &[&str], ctx: &mut Ctx) -> String {
     let by_id: HashMap<u64, &PeerSpec> = peers.iter().map(|p| (p.id, p)).collect();
     let live = |p: &PeerSpec| !p.flags.contains('d') && !p.flags.contains('x');
     let permitted = |p: &PeerSpec| pref.dc().is_none() || cfg.failover || p.dc == pref.dc();
-    let decl = rq.ks.and_then(|k| tables.iter().find(|d| d.ks == k && d.tbl == tbl));
+    let decl = tablet_expect.as_ref();
     let tokn = rq.token.map(norm_token);
     // the shard ScyllaDB's algorithm gives the token on THIS node (its own nr_shards / msb_ignore; 0 without sharder)
     let node_shard = |h: u64, tok: i64| -> u32 {
@@ -484,10 +509,8 @@ fn run_plan(w: &[&str], ctx: &mut Ctx) -> String {
     // None = the statement does not apply
     let expected: Option<Vec<(u64, Option<u32>)>> = match (cfg.token_aware, tokn, rq.ks.and_then(|k| kss.get(k))) {
         (true, Some(tok), Some(strat)) => Some(match decl {
-            Some(d) => shadow_tablet(&d.tablets, tok)
-                .map(|t| t.reps.iter().filter(|(h, _)| by_id.contains_key(h)).map(|(h, s)| (*h, Some(*s))).collect())
-                .unwrap_or_default(),
-            None => brute_ring_replicas(&peers, strat, tok).into_iter().map(|h| (h, Some(node_shard(h, tok)))).collect(),
+            Some(reps) => reps.iter().map(|(h, s)| (*h, Some(*s))).collect(),
+            None => brute_ring_replicas(peers, strat, tok).into_iter().map(|h| (h, Some(node_shard(h, tok)))).collect(),
         }),
         _ => None,
     };
@@ -581,6 +604,205 @@ fn run_plan(w: &[&str], ctx: &mut Ctx) -> String {
     plan_obs.sort();
     pf_obs.sort();
     format!("R={} D={} | plan={} pf={}", show(&r_all), if pref.dc().is_some() { show(&r_dc) } else { "x".into() }, plan_obs.join(","), pf_obs.join(","))
+}
+
+
+// ---------------------------------------------------------------------------------------------
+// hist cases: tablet updates interleaved with metadata refreshes
+
+enum HOp {
+    Learn(usize, usize, TabletSpec),
+    Declare(usize, usize),
+    Refresh(Vec<PeerSpec>),
+}
+
+fn parse_ks_tbl(s: &str) -> Option<(usize, usize)> {
+    let (ks, tbl) = s.split_once('.')?;
+    Some((ks.parse().ok()?, tbl.parse().ok()?))
+}
+
+fn parse_hops(s: &str) -> Option<Vec<HOp>> {
+    if s == "-" {
+        return Some(vec![]);
+    }
+    s.split('+')
+        .map(|op| {
+            let (kind, rest) = (op.get(..1)?, op.get(1..)?);
+            match kind {
+                "T" => {
+                    let (name, t) = rest.split_once('@')?;
+                    if t.contains('@') {
+                        return None;
+                    }
+                    let (ks, tbl) = parse_ks_tbl(name)?;
+                    Some(HOp::Learn(ks, tbl, parse_tablet(t)?))
+                }
+                "E" => parse_ks_tbl(rest).map(|(ks, tbl)| HOp::Declare(ks, tbl)),
+                "R" => parse_topology(rest).map(HOp::Refresh),
+                _ => None,
+            }
+        })
+        .collect()
+}
+
+fn node_specs(peers: &[PeerSpec]) -> Vec<NodeSpec> {
+    peers
+        .iter()
+        .map(|p| NodeSpec {
+            host_id: host_id(p.id),
+            datacenter: p.dc.map(dc_name),
+            rack: p.rack.map(rack_name),
+            tokens: p.tokens.clone(),
+            enabled: !p.flags.contains('d'),
+            connected: !p.flags.contains('x'),
+        })
+        .collect()
+}
+
+fn apply_sharders(cs: &ClusterState, peers: &[PeerSpec]) {
+    let sharders: HashMap<uuid::Uuid, (u16, u8)> =
+        peers.iter().filter_map(|p| parse_flags(&p.flags).flatten().map(|s| (host_id(p.id), s))).collect();
+    set_sharders(cs, &sharders);
+}
+
+/// The harness's own record of one learnt tablet (written from the documentation of `perform_maintenance`, not from
+/// the model): the raw replica list, the replicas resolved so far, whether some replica was unknown when it was learnt.
+struct ShTablet {
+    first: i64,
+    last: i64,
+    raw: Vec<(u64, u32)>,
+    resolved: Vec<(u64, u32)>,
+    failed: bool,
+}
+
+fn run_hist(w: &[&str], ctx: &mut Ctx) -> String {
+    let (Some(peers0), Some(kss), Some(ops), Some(cfg), Some(rq), Ok(tbl), Ok(samples)) = (
+        parse_topology(w[1]),
+        parse_strategies(w[2]),
+        parse_hops(w[3]),
+        parse_config(w[4]),
+        parse_request(w[5]),
+        w[6].parse::<usize>(),
+        w[7].parse::<usize>(),
+    ) else {
+        return "bad-case".into();
+    };
+    // flags well-formed; a host keeps its sharder for the whole history
+    let mut all: Vec<&PeerSpec> = peers0.iter().collect();
+    for op in &ops {
+        if let HOp::Refresh(ps) = op {
+            all.extend(ps.iter());
+        }
+    }
+    if all.iter().any(|p| parse_flags(&p.flags).is_none())
+        || all.iter().any(|p| all.iter().any(|q| q.id == p.id && parse_flags(&q.flags) != parse_flags(&p.flags)))
+    {
+        return "bad-case".into();
+    }
+    let mut declared: Vec<(usize, usize)> = Vec::new();
+    for op in &ops {
+        if let HOp::Learn(ks, t, _) | HOp::Declare(ks, t) = op {
+            if !declared.contains(&(*ks, *t)) {
+                declared.push((*ks, *t));
+            }
+        }
+    }
+    let mut tablet_tables: HashMap<String, Vec<String>> = HashMap::new();
+    for (ks, t) in &declared {
+        tablet_tables.entry(format!("k{}", ks)).or_default().push(format!("t{}", t));
+    }
+    let ks_specs: Vec<KeyspaceSpec> =
+        kss.iter().enumerate().map(|(i, s)| KeyspaceSpec { name: format!("k{}", i), strategy: to_strategy(s) }).collect();
+
+    // ---- the real thing: ClusterState::new, update_tablets, new_updated
+    let cs = cluster(format!("hist {} {} {}", w[1], w[2], w[3]), || {
+        let mut cur_peers: &[PeerSpec] = &peers0;
+        let mut cs = RT.with(|rt| rt.block_on(cluster_from_topology_with_tablets(&node_specs(cur_peers), &ks_specs, &tablet_tables)));
+        apply_sharders(&cs, cur_peers);
+        for op in &ops {
+            match op {
+                HOp::Learn(ks, t, tab) => {
+                    let reps: Vec<(uuid::Uuid, u32)> = tab.reps.iter().map(|(h, s)| (host_id(*h), *s)).collect();
+                    cs.verif_update_tablets(&[(format!("k{}", ks), format!("t{}", t), tab.first, tab.last, reps)]);
+                }
+                HOp::Declare(..) => {}
+                HOp::Refresh(ps) => {
+                    // The hook nodes are pool-less and rejected by the host filter; `calculate_new_topology` keeps such
+                    // a `Node` object only if it reads as disabled. Drop the "enabled" override for the refresh (the
+                    // hook imposes it again on the new state), so that - as for a real enabled node - the object
+                    // survives iff datacenter, rack and address are unchanged.
+                    for p in cur_peers {
+                        if let Some(n) = cs.get_node_by_host_id(host_id(p.id)) {
+                            n.verif_override_state(false, false);
+                        }
+                    }
+                    let before: Vec<(u64, Arc<scylla::cluster::Node>)> =
+                        cur_peers.iter().filter_map(|p| cs.get_node_by_host_id(host_id(p.id)).map(|n| (p.id, Arc::clone(n)))).collect();
+                    cs = RT.with(|rt| rt.block_on(cluster_refresh(&cs, &node_specs(ps), &ks_specs, &tablet_tables)));
+                    apply_sharders(&cs, ps);
+                    if std::env::var_os("C12_DEBUG").is_some() {
+                        let kept: Vec<u64> = before
+                            .iter()
+                            .filter(|(id, n)| cs.get_node_by_host_id(host_id(*id)).is_some_and(|m| Arc::ptr_eq(n, m)))
+                            .map(|(id, _)| *id)
+                            .collect();
+                        eprintln!("C12DEBUG refresh: node objects kept {:?} of {:?}", kept, before.iter().map(|b| b.0).collect::<Vec<_>>());
+                    }
+                    cur_peers = ps;
+                }
+            }
+        }
+        cs
+    });
+
+    // ---- the harness's history shadow
+    let mut known: Vec<u64> = peers0.iter().map(|p| p.id).collect();
+    let mut shadow: HashMap<(usize, usize), Vec<ShTablet>> = HashMap::new();
+    let mut final_peers: &[PeerSpec] = &peers0;
+    for op in &ops {
+        match op {
+            HOp::Learn(ks, t, tab) => {
+                let (f, l) = (norm_token(tab.first), norm_token(tab.last));
+                let list = shadow.entry((*ks, *t)).or_default();
+                list.retain(|u| !(u.first <= l && f <= u.last));
+                let resolved: Vec<(u64, u32)> = tab.reps.iter().filter(|(h, _)| known.contains(h)).cloned().collect();
+                list.push(ShTablet { first: f, last: l, raw: tab.reps.clone(), failed: resolved.len() != tab.reps.len(), resolved });
+            }
+            HOp::Declare(..) => {}
+            HOp::Refresh(ps) => {
+                let new: Vec<u64> = ps.iter().map(|p| p.id).collect();
+                for list in shadow.values_mut() {
+                    list.retain_mut(|t| {
+                        // a tablet with a replica on a node that left the cluster is forgotten
+                        if t.resolved.iter().any(|(h, _)| !new.contains(h)) {
+                            return false;
+                        }
+                        // unknown replicas are resolved again; still unknown: the tablet is forgotten
+                        if t.failed {
+                            if t.raw.iter().all(|(h, _)| new.contains(h)) {
+                                t.resolved = t.raw.clone();
+                                t.failed = false;
+                            } else {
+                                return false;
+                            }
+                        }
+                        true
+                    });
+                }
+                known = new;
+                final_peers = ps;
+            }
+        }
+    }
+    let tablet_expect: Option<Vec<(u64, u32)>> = rq.ks.filter(|k| declared.contains(&(*k, tbl))).map(|k| {
+        let tok = rq.token.map(norm_token);
+        shadow
+            .get(&(k, tbl))
+            .and_then(|l| l.iter().find(|t| tok.is_some_and(|x| t.first <= x && x <= t.last)))
+            .map(|t| t.resolved.clone())
+            .unwrap_or_default()
+    });
+    observe(&cs, final_peers, &kss, &cfg, &rq, tbl, samples, tablet_expect, ctx)
 }
 
 // ---------------------------------------------------------------------------------------------
@@ -748,6 +970,7 @@ pub fn run(case: &str, ctx: &mut Ctx) -> String {
     let kind = head.split('.').next().unwrap_or("");
     match (kind, w.len()) {
         ("plan", 8) => run_plan(&w, ctx),
+        ("hist", 8) => run_hist(&w, ctx),
         ("pool", 6) | ("route", 6) => {
             let route = kind == "route";
             let (Ok(n), Ok(msb), Some((per_shard, k))) = (w[1].parse::<u16>(), w[2].parse::<u8>(), parse_size(w[3])) else {
@@ -954,8 +1177,240 @@ fn tablet_tokens(tablets: &[TabletSpec]) -> Vec<i64> {
     v
 }
 
+
+// ---- hist generators
+
+fn sharder_flag(rng: &mut Rng) -> String {
+    if rng.chance(1, 4) {
+        String::new()
+    } else {
+        format!("s{}m{}", *rng.pick(&[1u16, 2, 3, 4, 7, 8, 256, 65535]), *rng.pick(&[0u8, 0, 1, 12, 63]))
+    }
+}
+
+fn fmt_tablet(t: &TabletSpec) -> String {
+    let reps = if t.reps.is_empty() { "-".to_owned() } else { t.reps.iter().map(|(h, s)| format!("{}.{}", h, s)).collect::<Vec<_>>().join(",") };
+    format!("{}_{}_{}", t.first, t.last, reps)
+}
+
+/// The shape of the tablet-feedback-before-topology race: a tablet is learnt that names a replica the driver does not
+/// know yet (in the preferred datacenter) next to a known replica elsewhere; an ordinary refresh then adds the node -
+/// and, most of the time, changes nothing else (no node removed, none re-created: the added node goes to the end of
+/// the peer list, so nobody's address moves).
+fn gen_late_replica(rng: &mut Rng, samples: usize, emit: &mut dyn FnMut(String)) {
+    let (dl, dr) = *rng.pick(&[(0u32, 1u32), (1, 0), (1, 3), (2, 0)]);
+    let mut next_id = 1u64;
+    let mut mk = |rng: &mut Rng, dc: u32, flags: &str| -> PeerSpec {
+        let id = next_id;
+        next_id += rng.range(1, 9) as u64;
+        let vn = rng.range(1, 2);
+        PeerSpec {
+            id,
+            dc: Some(dc),
+            rack: if rng.chance(1, 6) { None } else { Some(rng.below(2) as u32) },
+            tokens: (0..vn).map(|k| (id as i64) * 1000 + k * 37 - 3000).collect(),
+            flags: format!("{}{}", flags, sharder_flag(rng)),
+        }
+    };
+    // known nodes: 0..2 local ones (some down), 1..2 remote ones (the known replica is live)
+    let mut known: Vec<PeerSpec> = Vec::new();
+    for _ in 0..rng.below(3) {
+        let f = *rng.pick(&["", "", "x", "d"]);
+        known.push(mk(rng, dl, f));
+    }
+    let remote_rep = mk(rng, dr, "");
+    known.push(remote_rep.clone());
+    if rng.chance(1, 2) {
+        let f = *rng.pick(&["", "x"]);
+        known.push(mk(rng, dr, f));
+    }
+    if rng.chance(1, 2) {
+        rng.shuffle(&mut known);
+    }
+    let late_flags = if rng.chance(1, 10) { "x" } else { "" };
+    let late = mk(rng, dl, late_flags);
+    let kss = vec![if rng.bool() { Strat::Nts(vec![(dl, 1), (dr, 1)]) } else { Strat::Simple(2) }];
+    // the tablet: the late replica and the known remote one (either order), sometimes a second known replica
+    let (first, last) = *rng.pick(&[(-9223372036854775807i64, 9223372036854775807i64), (1, 1000), (-500, 500), (0, 0)]);
+    let mut reps = vec![(late.id, rng.below(8) as u32), (remote_rep.id, rng.below(8) as u32)];
+    if rng.bool() {
+        reps.swap(0, 1);
+    }
+    if known.len() > 1 && rng.chance(1, 3) {
+        let extra = rng.pick(&known).id;
+        if !reps.iter().any(|(h, _)| *h == extra) {
+            reps.push((extra, rng.below(8) as u32));
+        }
+    }
+    let tablet = TabletSpec { first, last, reps };
+    let mut ops: Vec<String> = Vec::new();
+    if rng.chance(1, 4) {
+        ops.push("E0.0".into());
+    }
+    // noise before: an unrelated tablet elsewhere in the token space
+    if rng.chance(1, 3) && last < 5000 {
+        ops.push(format!("T0.0@{}", fmt_tablet(&TabletSpec { first: 5001, last: 6000, reps: vec![(remote_rep.id, 1)] })));
+    }
+    ops.push(format!("T0.0@{}", fmt_tablet(&tablet)));
+    // the refresh that learns the node
+    let mut after = known.clone();
+    match rng.below(10) {
+        // most of the time nothing else changes
+        0..=6 => after.push(late.clone()),
+        // ... or the new node is listed first: everybody's address moves (all re-created)
+        7 => after.insert(0, late.clone()),
+        // ... or another node changes rack at the same time
+        8 => {
+            let k = rng.below(after.len() as u64) as usize;
+            after[k].rack = Some(after[k].rack.map(|r| r + 1).unwrap_or(0));
+            after.push(late.clone());
+        }
+        // ... or nothing is learnt at all (the tablet must then be forgotten)
+        _ => {}
+    }
+    ops.push(format!("R{}", fmt_topology(&after)));
+    if rng.chance(1, 5) {
+        ops.push(format!("R{}", fmt_topology(&after))); // a second refresh that changes nothing
+    }
+    let topo0 = fmt_topology(&known);
+    let ops_s = ops.join("+");
+    let rack = late.rack.unwrap_or(0);
+    for _ in 0..3 {
+        let pref = match rng.below(6) {
+            0 | 1 | 2 => format!("d{}", dl),
+            3 => format!("r{}.{}", dl, rack),
+            4 => "i".to_owned(),
+            _ => "a".to_owned(),
+        };
+        let rpref = if pref == "i" { format!("d{}", dl) } else { "a".to_owned() };
+        let tok = *rng.pick(&[first, last, first.saturating_add(1), last.saturating_sub(1), ((first as i128 + last as i128) / 2) as i64]);
+        let tok = tok.clamp(first, last);
+        let (lwt, cons) = if rng.chance(1, 4) { (1, "quorum") } else { (0, *rng.pick(&["one", "lq", "quorum"])) };
+        emit(format!(
+            "hist {} {} {} {}/t/{}/{} {}/0/{}/{}/-/{} 0 {}",
+            topo0,
+            fmt_strategies(&kss),
+            ops_s,
+            pref,
+            if rng.chance(5, 6) { "f" } else { "n" },
+            if rng.chance(3, 4) { "s" } else { "x" },
+            tok,
+            lwt,
+            cons,
+            rpref,
+            samples
+        ));
+    }
+}
+
+/// Random histories: tablet updates (known, late and unknown hosts; overlapping ranges) interleaved with refreshes that
+/// add a late node, remove a node, move a node to another datacenter / rack, reorder the peers, or change nothing.
+fn gen_random_hist(rng: &mut Rng, samples: usize, emit: &mut dyn FnMut(String)) {
+    let shape = TopoShape { max_nodes: 6, max_dcs: 3, max_racks: 2, max_vnodes: 2, dups: 0 };
+    let mut all = gen_topology(rng, shape);
+    if all.len() < 2 {
+        return;
+    }
+    random_flags(rng, &mut all);
+    add_sharders(rng, &mut all);
+    let n_late = rng.below(3).min(all.len() as u64 - 1) as usize;
+    let mut late: Vec<PeerSpec> = all.split_off(all.len() - n_late);
+    let mut cur: Vec<PeerSpec> = all.clone();
+    let every: Vec<u64> = cur.iter().chain(late.iter()).map(|p| p.id).collect();
+    let dcs = {
+        let mut d: Vec<u32> = cur.iter().chain(late.iter()).filter_map(|p| p.dc).collect();
+        d.sort_unstable();
+        d.dedup();
+        d
+    };
+    let nks = rng.range(1, 2) as usize;
+    let kss: Vec<Strat> = (0..nks).map(|_| gen_strategy(rng, &cur)).collect();
+    let topo0 = fmt_topology(&cur);
+    const RANGES: [(i64, i64); 8] = [(-9223372036854775807, -1), (0, 9223372036854775807), (1, 100), (101, 200), (50, 150), (150, 150), (-300, 0), (9223372036854775806, 9223372036854775807)];
+    let mut ops: Vec<String> = Vec::new();
+    let mut learnt: Vec<TabletSpec> = Vec::new();
+    for _ in 0..rng.range(1, 6) {
+        match rng.below(10) {
+            0..=4 => {
+                let (first, last) = *rng.pick(&RANGES);
+                let mut reps: Vec<(u64, u32)> = Vec::new();
+                for _ in 0..rng.range(1, 3) {
+                    let h = if rng.chance(1, 12) { 999 } else { *rng.pick(&every) };
+                    if !reps.iter().any(|(x, _)| *x == h) {
+                        reps.push((h, rng.below(8) as u32));
+                    }
+                }
+                let t = TabletSpec { first, last, reps };
+                let ks = if rng.chance(1, 8) { 1 } else { 0 };
+                ops.push(format!("T{}.0@{}", ks, fmt_tablet(&t)));
+                if ks == 0 {
+                    learnt.push(t);
+                }
+            }
+            5 | 6 if !late.is_empty() => {
+                cur.push(late.remove(0));
+                ops.push(format!("R{}", fmt_topology(&cur)));
+            }
+            7 if cur.len() > 1 => {
+                match rng.below(3) {
+                    0 => {
+                        let k = rng.below(cur.len() as u64) as usize;
+                        cur.remove(k);
+                    }
+                    1 => {
+                        let k = rng.below(cur.len() as u64) as usize;
+                        if !dcs.is_empty() {
+                            cur[k].dc = Some(*rng.pick(&dcs));
+                        }
+                        if rng.bool() {
+                            cur[k].rack = Some(rng.below(2) as u32);
+                        }
+                    }
+                    _ => rng.shuffle(&mut cur),
+                }
+                ops.push(format!("R{}", fmt_topology(&cur)));
+            }
+            8 => ops.push("E0.1".into()),
+            _ => ops.push(format!("R{}", fmt_topology(&cur))),
+        }
+    }
+    let ops_s = ops.join("+");
+    let mut toks = tablet_tokens(&learnt);
+    toks.extend_from_slice(&[0, 75, 150, -1, 9223372036854775807]);
+    for _ in 0..3 {
+        let cfg = format!(
+            "{}/{}/{}/{}",
+            gen_pref(rng, &cur, true).fmt(),
+            if rng.chance(9, 10) { "t" } else { "n" },
+            if rng.chance(1, 2) { "f" } else { "n" },
+            if rng.chance(3, 4) { "s" } else { "x" }
+        );
+        let (lwt, cons) = if rng.chance(1, 4) { (1, "quorum") } else { (0, *rng.pick(&["one", "lq", "serial"])) };
+        emit(format!(
+            "hist {} {} {} {} {}/{}/{}/{}/-/{} {} {}",
+            topo0,
+            fmt_strategies(&kss),
+            ops_s,
+            cfg,
+            rng.pick(&toks),
+            if rng.chance(1, 10) { 1 } else { 0 },
+            lwt,
+            cons,
+            gen_pref(rng, &cur, false).fmt(),
+            if rng.chance(1, 8) { 1 } else { 0 },
+            samples
+        ));
+    }
+}
+
 fn tagged(line: String) -> String {
     let w: Vec<&str> = line.split(' ').collect();
+    if w.len() == 8 && w[0] == "hist" {
+        // tag: what the refreshes of the history do
+        let n_refresh = w[3].split('+').filter(|o| o.starts_with('R')).count();
+        let n_learn = w[3].split('+').filter(|o| o.starts_with('T')).count();
+        return format!("hist.T{}R{} {}", n_learn.min(3), n_refresh.min(3), w[1..].join(" "));
+    }
     if w.len() != 8 || w[0] != "plan" {
         return line;
     }
@@ -1155,6 +1610,14 @@ pub fn generate(rng: &mut Rng, tier: Tier, emit0: &mut dyn FnMut(String)) {
     }
 
 
+    // 2b. histories: tablet updates interleaved with metadata refreshes
+    for _ in 0..if quick { 500 } else { 6000 } {
+        gen_late_replica(rng, samples, emit);
+    }
+    for _ in 0..if quick { 700 } else { 9000 } {
+        gen_random_hist(rng, samples, emit);
+    }
+
     // 3. malformed case lines
     for bad in [
         "plan",
@@ -1163,6 +1626,11 @@ pub fn generate(rng: &mut Rng, tier: Tier, emit0: &mut dyn FnMut(String)) {
         "plan 1:0:0:5 S1 0.0@1_5_1 a/t/f/s 5/0/0/one/-/a 0 3",
         "plan 1:0:0:5 S1 0.0+0.0 a/t/f/s 5/0/0/one/-/a 0 3",
         "plan 1:0:0:5 S1 - a/t/f/s 5/0/0/one/-/i 0 3",
+        "hist 1:0:0:5 S1 X0.0 a/t/f/s 5/0/0/one/-/a 0 3",
+        "hist 1:0:0:5 S1 T0.0@5_1_1.0 a/t/f/s 5/0/0/one/-/a 0 3",
+        "hist 1:0:0:5:s2m1 S1 R1:0:0:5:s3m1 a/t/f/s 5/0/0/one/-/a 0 3",
+        "hist 1:0:0:5 S1 R1:0:0:5;1:0:0:6 a/t/f/s 5/0/0/one/-/a 0 3",
+        "hist 1:0:0:5 S1 T0.0@1_5_1.0@6_9_1.0 a/t/f/s 5/0/0/one/-/a 0 3",
         "pool 0 12 S1 p 0",
         "pool 4 64 S1 p 0",
         "pool 4 12 S0 p 0",
